@@ -54,9 +54,9 @@ class SigmaCollection:
         for rule in init_rules:
             if isinstance(rule, (SigmaRule, SigmaCorrelationRule)):
                 self.rules.append(rule)
-                if rule.id is not None:
+                if isinstance(rule.id, (UUID, str)):
                     self.ids_to_rules[rule.id] = rule
-                if rule.name is not None:
+                if isinstance(rule.name, str):
                     self.names_to_rules[rule.name] = rule
             elif isinstance(rule, SigmaFilter):
                 self.filters.append(rule)
